@@ -254,8 +254,13 @@ class World:
         if op == 'newcls' or not self.classes:
             k = rng.choice([0, 1, 1, 2, 2, 3])
             bases = tuple(rng.sample(self.classes, min(k, len(self.classes))))
+            ns = {'__call__': lambda self_: None}
+            if not bases and rng.random() < 0.2:
+                # instances without a __dict__: the instance declaration lives in a slot
+                ns['__slots__'] = ('__provides__', 'zname', '__weakref__')
+                ctx.count('classes_with_a_provides_slot')
             try:
-                c = type('C%d' % len(self.classes), bases or (object,), {'__call__': lambda self_: None})
+                c = type('C%d' % len(self.classes), bases or (object,), ns)
             except TypeError:
                 return
             how = rng.choice(['plain', 'plain', 'deco', 'decoonly'])
@@ -289,7 +294,7 @@ class World:
         if op == 'gc':
             gc.collect()
             ctx.op('gc')
-        elif op == 'factory':
+        elif op == 'factory' and hasattr(o, '__dict__'):
             # a callable *instance* declared as a factory: says what its products implement, and is stored in the
             # instance's own __dict__; it changes nothing about what the instance itself (or a super proxy of it)
             # provides
@@ -323,6 +328,10 @@ class World:
             self.declare_cls(c, ifs[:1])
             ctx.op(op, c.__name__, nm(ifs[:1]))
             classImplementsFirst(c, ifs[0])
+        elif op == 'provider' and '__slots__' in vars(c) or op == 'provider' and any('__slots__' in vars(k) for k in c.__mro__[:-1]):
+            # a class-level declaration replaces the ``__provides__`` slot descriptor of such a class (one name for two
+            # things, by design): not generated
+            return
         elif op == 'provider':
             self.cprov[c] = (list(ifs), list(ifs))
             ctx.op(op, c.__name__, nm(ifs))
